@@ -43,11 +43,19 @@ class Ctx:
 
     # --- running ---------------------------------------------------------------------
     def impl(self, module, cases, timeout=10, hashseeds=None):
-        return common.run_impl(module, cases, hashseeds or self.hashseeds, per_case_timeout=timeout)
+        t = time.time()
+        r = common.run_impl(module, cases, hashseeds or self.hashseeds, per_case_timeout=timeout)
+        self.dist["t_impl_s"] += round(time.time() - t, 1)
+        return r
 
     def coq(self, sources, timeout=900):
+        t = time.time()
         outs = common.coq_eval(sources, timeout=timeout)
-        return [common.parse_coq_values(o) for o in outs]
+        self.dist["t_coq_s"] += round(time.time() - t, 1)
+        t = time.time()
+        r = [common.parse_coq_values(o) for o in outs]
+        self.dist["t_parse_s"] += round(time.time() - t, 1)
+        return r
 
 
 def leg_t(mod):
